@@ -894,38 +894,39 @@ class JinjaTemplater(PythonTemplater):
         handled correctly and can be combined with those from the original
         template.
         """
-        # NOTE: We sort the stack because it's important that it's in order
-        # because we're going to be popping from one end of it. There's no
-        # guarantee that the items are in a particular order a) because it's
-        # a dict and b) because they may have been generated out of order.
-        delta_stack = sorted(length_deltas.items(), key=lambda t: t[0])
+        # NOTE: Slices don't necessarily arrive in source order (loops revisit
+        # earlier parts of the source), so rather than carrying a running delta
+        # through the slices in the order they come, work out for each slice
+        # where it sits relative to the modified positions.
+        # For each modification (in source order): where it starts in the
+        # *original* source, where that is in the *variant* source, and the
+        # total shift which applies to anything after it.
+        modifications: list[tuple[int, int, int]] = []
+        cumulative_delta = 0
+        for idx, d in sorted(length_deltas.items(), key=lambda t: t[0]):
+            modifications.append((idx, idx + cumulative_delta, cumulative_delta + d))
+            cumulative_delta += d
 
         adjusted_slices: list[TemplatedFileSlice] = []
-        carried_delta = 0
         for tfs in sliced_template:
-            if delta_stack:
-                idx, d = delta_stack[0]
-                if idx == tfs.source_slice.start + carried_delta:
-                    adjusted_slices.append(
-                        tfs._replace(
-                            # "stretch" the slice by adjusting the end more
-                            # than the start.
-                            source_slice=slice(
-                                tfs.source_slice.start + carried_delta,
-                                tfs.source_slice.stop + carried_delta - d,
-                            )
-                        )
-                    )
-                    carried_delta -= d
-                    delta_stack.pop(0)
-                    continue
-
-            # No delta match. Just shift evenly.
+            start_shift = 0
+            stop_shift = 0
+            for _, variant_idx, shift_after in modifications:
+                if variant_idx < tfs.source_slice.start:
+                    # Modified slice entirely before this one. Shift evenly.
+                    start_shift = shift_after
+                    stop_shift = shift_after
+                elif variant_idx == tfs.source_slice.start:
+                    # This is the modified slice itself. "Stretch" the slice by
+                    # adjusting the end more than the start.
+                    stop_shift = shift_after
+                else:
+                    break
             adjusted_slices.append(
                 tfs._replace(
                     source_slice=slice(
-                        tfs.source_slice.start + carried_delta,
-                        tfs.source_slice.stop + carried_delta,
+                        tfs.source_slice.start - start_shift,
+                        tfs.source_slice.stop - stop_shift,
                     )
                 )
             )
